@@ -67,9 +67,12 @@ extern "C" void h_c15f_escape_ostream()
 {
     unsigned n = verif_param(0);
     unsigned char *in = sym_buffer(n);
-    unsigned limit = nondet_u8();
-    ASSUME(limit <= 40);
-    bool prefailed = verif_param(1) != 0;   // concrete per solver instance
+    // mode per solver instance: 0 accepting sink, 1 stream failed beforehand, 2 sink that accepts nothing
+    // (a sink failing after a symbolic number of bytes is C15.a's subject; with two sinks and a
+    // std::ostream on top it cost 9 GB for one input byte)
+    unsigned mode = verif_param(1);
+    unsigned limit = mode == 2 ? 0 : 48;
+    bool prefailed = mode == 1;
     rec_buf &ra = *new rec_buf(limit);
     int r = cppcms::util::escape((char const *)in, (char const *)in + n, ra);
     rec_buf &rb = *new rec_buf(limit);
